@@ -226,7 +226,9 @@ func dfs(r *core.Run, f Family, cfg Cfg, hist []int, seenUser bool, l *core.Loca
 		}
 		if len(hist) == f.Depth {
 			l.Add("full_depth_histories", 1)
-			l.Sample(cfg.String() + ": " + strings.Join(opNames(hist), ","))
+			if l.P.Counters["full_depth_histories"]%49999 == 4999 {
+				l.Sample(f.Name + " " + cfg.String() + ": " + strings.Join(opNames(hist), ","))
+			}
 		}
 	} else if len(hist) == f.Depth {
 		return
